@@ -51,12 +51,21 @@
 (* and the weaker theorem IdealIffNoOrphan.)  Cascade(s) is one rule, named    *)
 (* twice for the bookkeeping: CascadeClean (no file disappears) and            *)
 (* CascadeRemovesOrphans (some tile above level s had no tile of level s below *)
-(* it: data tile files disappear, ghost `pruned`).  What follows from the      *)
-(* ideal rule and a user may not expect: a cascade started from a level DEEPER  *)
-(* than the data (Sample(1); Cascade(2)) finds an empty start level and erases  *)
-(* the whole pyramid (CascadeOperator, CascadePrunesOnlyAfterShrink),           *)
-(* and an OUTPUT tile of a removed data tile goes stale exactly as after a     *)
-(* shrinking Sample.                                                           *)
+(* it: data tile files disappear, ghost `pruned`).  An OUTPUT tile of a        *)
+(* removed data tile goes stale exactly as after a shrinking Sample.           *)
+(*                                                                           *)
+(* Under the ideal rule alone a cascade started from a level DEEPER than the    *)
+(* data (a mistyped start: Sample(1); Cascade(2)) would find an empty start     *)
+(* level and erase the whole pyramid.  cascade_images therefore REFUSES a start *)
+(* level >= 1 that holds no tile file (PyramidIO.level_has_tiles: a file of ANY *)
+(* format, so an output tile counts too): ValueError before anything is         *)
+(* touched.  That is the third named case, CascadeRefused: nothing changes in   *)
+(* the directory and no ghost changes (the command promises nothing).           *)
+(* CascadeNeverErases: an accepted cascade never empties a non-empty pyramid;   *)
+(* CascadePrunesOnlyAfterShrink: it deletes files only after a Sample shrank    *)
+(* the pyramid.  (NoLevelWithOutputOnly: with the commands of this model a      *)
+(* level never holds output tiles without a data tile, so "any format" and      *)
+(* "data format" guard the same levels.)                                        *)
 (*                                                                           *)
 (* Deliberate deviation kept from the code (DESIGN.md section 9), one stage    *)
 (* later: Transform skips positions without a data tile, so an output tile     *)
@@ -214,9 +223,14 @@ StaleAbove(dir, s) == \E p \in Pos : p[1] < s /\ dir[p].ex /\ ~\E l \in Level(s)
 \* some output tile on the transformed levels has no data tile any more
 StaleOut(o, dir, s) == \E p \in Pos : p[1] <= s /\ o[p].ex /\ ~dir[p].ex
 
+\* PyramidIO.level_has_tiles: some tile file of ANY format at the level
+LevelHasTiles(dir, o, s) == \E p \in Level(s) : dir[p].ex \/ o[p].ex
+\* cascade_images: start < 1 -> return; an empty start level -> ValueError; otherwise the walk
+CascadeAccepted(dir, o, s) == s < 1 \/ LevelHasTiles(dir, o, s)
+
 \* cascading is done on the data format (cascading the output format is outside this model)
 CascadeStep(cmd, prunes) ==
-    /\ cmd.op = "Cascade" /\ bld.fmt = DataFmt /\ StaleAbove(data, cmd.d) = prunes
+    /\ cmd.op = "Cascade" /\ bld.fmt = DataFmt /\ CascadeAccepted(data, out, cmd.d) /\ StaleAbove(data, cmd.d) = prunes
     /\ data' = CascadeResult(data, cmd.d)
     /\ cons' = cons \cup 0..(cmd.d - 1)
     /\ fresh' = fresh \ 0..(cmd.d - 1)
@@ -225,6 +239,9 @@ CascadeStep(cmd, prunes) ==
 CascadeClean(cmd) == CascadeStep(cmd, FALSE)              \* tiles are written or rewritten, no file disappears
 \* tiles whose leaves no longer exist are removed, children before parents (PrunesExactlyWhenStale: exactly these steps set `pruned`)
 CascadeRemovesOrphans(cmd) == CascadeStep(cmd, TRUE)
+\* the start level holds no tile: the call raises before touching anything; no file and no promise changes
+CascadeRefused(cmd) == /\ cmd.op = "Cascade" /\ bld.fmt = DataFmt /\ ~CascadeAccepted(data, out, cmd.d)
+                       /\ UNCHANGED <<data, out, wtml, bld, base, cons, fresh, removed, rebased, pruned>>
 
 TransformStep(cmd, deviates) ==
     /\ cmd.op = "Transform" /\ StaleOut(out, data, cmd.d) = deviates
@@ -240,7 +257,7 @@ WriteWtml(cmd) == /\ cmd.op = "WriteWtml"
                   /\ UNCHANGED <<data, out, bld, base, cons, fresh, removed, rebased, pruned>>
 
 Do(cmd) == /\ n < MaxCmds /\ n' = n + 1
-           /\ \/ NewBuilder(cmd) \/ Sample(cmd) \/ CascadeClean(cmd) \/ CascadeRemovesOrphans(cmd)
+           /\ \/ NewBuilder(cmd) \/ Sample(cmd) \/ CascadeClean(cmd) \/ CascadeRemovesOrphans(cmd) \/ CascadeRefused(cmd)
               \/ TransformClean(cmd) \/ TransformLeavesStale(cmd) \/ WriteWtml(cmd)
 Next == \E cmd \in Commands : Do(cmd)
 Spec == Init /\ [][Next]_vars
@@ -286,23 +303,38 @@ NoShrinkNoOrphan == ~shrunk => /\ \A p \in Pos : p[1] < base => ~Orphan(p)
 \* (6) re-running the cascade: on the promised levels it is a no-op; in general it is idempotent
 \*     (every state reached by Cascade(s) promises 0 .. s-1, so this is "Cascade(s); Cascade(s) = Cascade(s)")
 RecascadeNoOp == \A s \in 0..MaxDepth : (0..(s - 1)) \subseteq cons => CascadeResult(data, s) = data
-\* (7) for every reachable directory and every start level: the cascade does not touch the start level or anything
+\* (7) for every reachable directory and every start level the call accepts: the cascade does not touch the start level or anything
 \*     deeper; its result is the ideal rule's (the shared merge rule = the rule stated here); above the start level a
 \*     tile exists iff a tile of the start level lies below it, and is the ideal merge of its children; it is
 \*     idempotent; and it removes a file exactly when StaleAbove says so
-CascadeOperator == \A s \in 0..MaxDepth :
+CascadeOperator == \A s \in {t \in 0..MaxDepth : CascadeAccepted(data, out, t)} :
     LET r == CascadeResult(data, s) IN
     /\ \A p \in Pos : p[1] >= s => r[p] = data[p]
     /\ r = IdealResult(data, s)
     /\ \A p \in Pos : p[1] < s => /\ r[p].ex <=> LeafBelow(p, s)
                                   /\ r[p] = MergeIdeal(KidTiles(r, p))
-    /\ (\A l \in Level(s) : ~data[l].ex) => \A p \in Pos : p[1] < s => ~r[p].ex      \* an empty start level erases everything above
+    /\ DataPos # {} => \E p \in Pos : r[p].ex                                        \* never empties a non-empty pyramid
     /\ CascadeResult(r, s) = r
     /\ StaleAbove(data, s) <=> (\E p \in Pos : data[p].ex /\ ~r[p].ex)
 \*     ... the last line alone (cheap enough for every state): the steps named CascadeRemovesOrphans are exactly
 \*     the steps that set the ghost `pruned`
 PrunesExactlyWhenStale == \A s \in 0..MaxDepth :
     StaleAbove(data, s) <=> (\E p \in Pos : data[p].ex /\ ~CascadeResult(data, s)[p].ex)
+
+\*     ... an accepted cascade never empties a non-empty pyramid (every state; the refusal of an empty start level is
+\*     what makes this true: the ideal rule alone erases everything above an empty level) ...
+CascadeNeverErases == \A s \in 1..MaxDepth : (LevelHasTiles(data, out, s) /\ DataPos # {}) => \E p \in Pos : CascadeResult(data, s)[p].ex
+\*     ... the guard counts files of any format, which with the commands of this model are the levels holding data
+NoLevelWithOutputOnly == \A lv \in 0..MaxDepth : (\E p \in Level(lv) : out[p].ex) => \E p \in Level(lv) : data[p].ex
+\*     ... and a cascade deletes files only after some Sample shrank the pyramid: without one, a start level deeper than
+\*     the data is empty and refused (refuted while the code still accepted Sample(d); Cascade(d + 1))
+CascadePrunesOnlyAfterShrink == pruned => shrunk
+
+\*     (PrunesExactlyWhenStale and CascadeNeverErases in one pass over the start levels: one cascade per level and state)
+CascadeEveryState == \A s \in 0..MaxDepth :
+    LET r == CascadeResult(data, s) IN
+    /\ StaleAbove(data, s) <=> (\E p \in Pos : data[p].ex /\ ~r[p].ex)
+    /\ (s >= 1 /\ LevelHasTiles(data, out, s) /\ DataPos # {}) => \E p \in Pos : r[p].ex
 
 \* ---- Transform
 \* (8) on the promised levels every data tile has its output tile, pixel for pixel
@@ -313,8 +345,10 @@ TransformOperator == \A s \in 0..MaxDepth :
     /\ \A p \in Pos : (r[p].ex /\ r[p] # out[p]) => (data[p].ex /\ p[1] <= s)
     /\ TransformResult(r, data, s) = r
     /\ StaleOut(out, data, s) <=> (r # TransformIdeal(out, data, s))
-\* (10) as long as no data tile file was deleted (by a Sample or by a Cascade), outputs exist only where data exists
+\* (10) as long as no data tile file was deleted (by a Sample or by a Cascade), outputs exist only where data exists;
+\*      in particular when no Sample shrank the pyramid
 NoLossNoStaleOutput == ~lost => OutPos \subseteq DataPos
+NoShrinkNoStaleOutput == ~shrunk => OutPos \subseteq DataPos
 \* (11) Transform before Cascade covers only the levels that existed: Sample(d); Transform(d); Cascade(d) leaves the
 \*      parents without output.  The order Sample; Cascade; Transform gives a complete output pyramid:
 OutputComplete == ((0..base) \subseteq fresh /\ base >= 0) => \A p \in DataPos : p[1] <= base => out[p].ex
@@ -335,12 +369,6 @@ UnsampledBuilderLevelsZero == ~bld.sampled => bld.levels = 0
 
 \* ---- statements that are NOT true of the code as built (TLC must refute each: negative controls, and the
 \*      counterexamples are the shortest command sequences that leave stale data behind or lose data)
-\* a cascade deletes files only after some Sample shrank the pyramid (it also does when started from a level deeper
-\* than the data: Sample(d); Cascade(d + 1) erases the sampled tiles)
-CascadePrunesOnlyAfterShrink == pruned => shrunk
-\* without a shrinking Sample outputs exist only where data exists (a theorem until the repair of walk_callback:
-\* now a cascade started deeper than the data deletes the data tiles and leaves their outputs)
-NoShrinkNoStaleOutput == ~shrunk => OutPos \subseteq DataPos
 \* a sample at a shallower depth after a deeper cascade leaves nothing deeper than the sampled depth
 NothingDeeperThanBase == \A p \in DataPos : p[1] <= base
 \* outputs exist only where data exists (sampling at one depth only)
